@@ -100,6 +100,8 @@ def check_case(idx, sl, T, v, R):
         feats = feats0 | {'native'}
         if contains_empty_bits(T, v):
             feats.add('empty_bitstring')
+        if absent_all_optional_record(T, v):
+            feats.add('absent_all_optional_record')
         try:
             obj = B.build(T, v, spec)
             py = nat_enc.encode(obj)
@@ -132,6 +134,8 @@ def check_case(idx, sl, T, v, R):
         feats = feats0 | {'pyvalue', 'enc:' + ename}
         if has_absent_optional(T, v):
             feats.add('absent_optional')
+        if absent_all_optional_record(T, v):
+            feats.add('absent_all_optional_record')
         if U.contains(T, lambda t: t[0] in ('SEQ', 'SET') and any(f[2] == 'D' and M.base_of(f[1])[0] == 'NULL' for f in t[1])):
             feats.add('default_null')
         if default_constructed_equal(T, v):
@@ -169,6 +173,28 @@ def contains_empty_bits(T, v):
         return any(contains_empty_bits(T[1], x) for x in v)
     if k == 'CHOICE':
         return contains_empty_bits(dict(T[1])[v[0]], v[1])
+    return False
+
+
+def absent_all_optional_record(T, v):
+    """an absent OPTIONAL component whose type is a SEQUENCE/SET without mandatory members (finding K11)"""
+    from mc.model.emu import all_optional_record
+    T = M.strip_con(T)
+    k = T[0]
+    if k == 'TAG':
+        return absent_all_optional_record(T[4], v)
+    if k in ('SEQ', 'SET'):
+        for name, ft, opt, d in T[1]:
+            if name not in v:
+                if opt == 'O' and all_optional_record(ft):
+                    return True
+            elif absent_all_optional_record(ft, v[name]):
+                return True
+        return False
+    if k in ('SEQOF', 'SETOF'):
+        return any(absent_all_optional_record(T[1], x) for x in v)
+    if k == 'CHOICE':
+        return absent_all_optional_record(dict(T[1])[v[0]], v[1])
     return False
 
 
